@@ -104,7 +104,7 @@ def tlc_env(xmx="3g"):
     return env
 
 
-VERDICT_RE = re.compile(r'^<<"VERDICT", "(.*)">>$')
+VERDICT_RE = re.compile(r'^<<"(?:VERDICT|CONF)", "(.*)">>$')
 END_RE = re.compile(r'^<<"TRACE-END", (\d+), (\d+)>>')
 
 
